@@ -14,6 +14,11 @@ import impl
 import refenc
 from common import (
     UNSUPPORTED,
+    bn_id,
+    iri_s,
+    lit_dt,
+    lit_lang,
+    lit_lex,
     events_text,
     hx,
     sink_arg,
@@ -192,7 +197,7 @@ def _c05_stream_level(ctx: Ctx, r) -> None:
         for _ in range(r.randint(2, 8)):
             k = r.random()
             if k < 0.25:
-                ops.append(("ns", r.choice(["a", "b", ""]), g.iri()._iri))
+                ops.append(("ns", r.choice(["a", "b", ""]), iri_s(g.iri())))
                 want.append("N")
             else:
                 gid = r.choice([g.iri(), g.iri(), g.bnode(), DefaultGraph])
@@ -339,16 +344,16 @@ def _c05_term_level(ctx: Ctx, r) -> None:
             if r.random() < 0.7:
                 t = g.iri()
                 msg = jelly.RdfIri()
-                rows = enc.encode_iri(t._iri, msg)
-                hist.append(t._iri)
+                rows = enc.encode_iri(iri_s(t), msg)
+                hist.append(iri_s(t))
             else:
                 t = g.literal()
                 if r.random() < 0.15 and pd:
                     # the generic Literal can carry a language tag AND a datatype: the datatype wins on the wire
-                    t = Literal(t._lex, langtag="en", datatype=r.choice(gen.DTS[:-1]))
+                    t = Literal(lit_lex(t), langtag="en", datatype=r.choice(gen.DTS[:-1]))
                 msg = jelly.RdfLiteral()
-                rows = enc.encode_literal(lex=t._lex, language=t._langtag, datatype=t._datatype, literal=msg)
-                hist.append((t._lex, t._langtag, t._datatype))
+                rows = enc.encode_literal(lex=lit_lex(t), language=lit_lang(t), datatype=lit_dt(t), literal=msg)
+                hist.append((lit_lex(t), lit_lang(t), lit_dt(t)))
             try:
                 for row in rows:
                     dec.decode_row(getattr(row, row.WhichOneof("row")))
@@ -356,8 +361,8 @@ def _c05_term_level(ctx: Ctx, r) -> None:
             except Exception as e:  # noqa: BLE001
                 got = e
             want_t = gen.normalize_term(t)
-            if isinstance(t, Literal) and t._langtag is not None and t._datatype not in (None, gen.XSD + "string"):
-                want_t = Literal(t._lex, None, t._datatype)
+            if isinstance(t, Literal) and lit_lang(t) is not None and lit_dt(t) not in (None, gen.XSD + "string"):
+                want_t = Literal(lit_lex(t), None, lit_dt(t))
             if got != want_t:
                 ok = False
                 break
@@ -637,6 +642,7 @@ def check_C03(ctx: Ctx) -> None:
     _c03_frame_length_cases(ctx)
     _c03_graph_api(ctx, ctx.rng("graph-api"))
     _c03_reused_options(ctx, ctx.rng("reused-options"))
+    _tiny_prefix_tables(ctx, ctx.rng("tiny-prefix"), ctx.n(80, 800))
 
 
 def _c03_version_cases(ctx: Ctx) -> None:
@@ -813,7 +819,7 @@ def _dedup_bindings(bindings):
 def _has_xsd_string(stmts) -> bool:
     def walk(t):
         if isinstance(t, Literal):
-            return t._datatype == gen.XSD + "string"
+            return lit_dt(t) == gen.XSD + "string"
         if isinstance(t, Triple):
             return any(walk(x) for x in t)
         return False
@@ -1864,7 +1870,11 @@ def _c08_positioned_and_plugin(ctx: Ctx, r) -> None:
     for i in range(ctx.n(16, 160)):
         cls = r.choice("TQ")
         o = Opts(fs=250, lt=0, gen=False, star=False, name="n" * r.choice([0, 1, 2, 3, 9]), pn=16, pp=8, pd=8)
-        stmts = _rdf11_statements(r, cls, o, r.randint(1, 4))
+        if i % 2 == 1:
+            # an explicit flow object that cuts several frames (non-delimited output then holds several bare frames back to back)
+            o.flow = ("flatTriples" if cls == "T" else "flatQuads", 0, r.choice([1, 2, 3]))
+            ctx.dist["plugin:explicit-multi-frame-flow"] += 1
+        stmts = _rdf11_statements(r, cls, o, r.randint(1, 4) if i % 2 == 0 else r.randint(3, 8))
         store = _to_store(stmts, cls)
         outs = {}
         import copy
@@ -3177,6 +3187,59 @@ def _c18_rdflib(ctx: Ctx, r) -> None:
                  dict(request=c["req"][:1500], referee=line[:1200], want=want[:1200]))
 
 
+def _tiny_prefix_tables(ctx: Ctx, r, n: int, integrations=("generic", "rdflib")) -> None:
+    """Statements whose IRIs come from more namespaces than the prefix table has slots (1..3), mixed so that a row RE-USES a
+    resident prefix and then needs new ones: the writer must refuse such a row or write something that decodes to the input
+    (a reused entry that is not kept for the rest of its row is evicted under the row's feet). Bytes are compared with the
+    model; the real bytes go to the Lean referee."""
+    import rimpl
+
+    cases = []
+    for i in range(n):
+        cls = r.choice("TQ")
+        pp = r.choice([1, 2, 3])
+        o = Opts(fs=r.choice([1, 3, 250]), lt=0, gen=False, star=False, delim=r.random() < 0.8, pn=16, pp=pp, pd=4)
+        spaces = [f"http://n{j}.example/" for j in range(pp + 2)]
+        stmts, prev = [], None
+        for j in range(r.randint(2, 6)):
+            # a walk over namespaces in which the first term tends to come back to the namespace the previous row ended in
+            first = prev if prev is not None and r.random() < 0.6 else r.choice(spaces)
+            use = [first] + [r.choice(spaces) for _ in range(3)]
+            terms = [IRI(use[k] + r.choice("abc") + str(r.randint(0, 2))) for k in range(4)]
+            prev = use[2]
+            stmts.append(Triple(*terms[:3]) if cls == "T" else Quad(*terms[:3], r.choice([DefaultGraph, terms[3]])))
+        integ = r.choice(integrations)
+        try:
+            if integ == "rdflib":
+                data = [tuple(rimpl.to_rdflib(t) for t in st) for st in stmts]
+                req, resp, b = rimpl.run_serr(cls, o, data)
+            else:
+                resp, b = impl.run_ser_frames(cls, o, stmts, is_sink=False)
+                req = f"ser {cls} frames {o.token()} gen:{stmts_text(stmts)}"
+        except Exception as e:  # noqa: BLE001
+            ctx.fail(f"serializer harness raised {type(e).__name__}: {e}", dict(statements=stmts_text(stmts)[:400]))
+            continue
+        cases.append(dict(cls=cls, o=o, stmts=stmts, req=req, resp=resp, bytes=b, integ=integ,
+                          overflows=not all(gen.fits([x], o.pn, o.pp, o.pd) for x in stmts)))
+    for integ, suite in (("generic", "SER"), ("rdflib", "SERR")):
+        sub = [c for c in cases if c["integ"] == integ]
+        ctx.corr(suite, [c["req"] for c in sub], [c["resp"] for c in sub])
+    todo = [c for c in cases if c["resp"].startswith("ok ") and c["resp"].endswith(" end") and c["bytes"]]
+    got = __import__("common").run_driver([spec_line(c["bytes"], c["o"].delim) for c in todo])
+    for c in cases:
+        ctx.dist[f"tiny-prefix-table:{c['integ']}:" + ("overflowing" if c["overflows"] else "fitting")] += 1
+        ctx.case(("tiny-prefix", c["req"]), c["overflows"])
+        if not (c["resp"].startswith("ok ") and c["resp"].endswith(" end")):
+            ctx.dist["tiny-prefix-table:writer_refused"] += 1
+    for c, line in zip(todo, got):
+        verdict, evs, _ = parse_spec_response(line)
+        want = " ".join("S" + stmt_text(x) for x in expected_events(c["stmts"], c["cls"]))
+        if verdict == "ok" and _norm_text(evs) == _norm_text(want):
+            continue
+        ctx.fail(f"a row needing more prefixes than the table holds was written, and the file decodes to different data ({verdict}; {c['integ']} serializer)",
+                 dict(request=c["req"][:1500], referee=line[:1200], want=want[:1200]))
+
+
 def check_C20(ctx: Ctx) -> None:
     r = ctx.rng("reject")
     reqs, resp, metas = [], [], []
@@ -3396,6 +3459,26 @@ def _declares_huge_frame(b: bytes) -> bool:
     return False
 
 
+def _c17_rebind_stream(n: int) -> bytes:
+    """A valid delimited TRIPLES stream (version 2) with one triple and n namespace declarations `p: <http://e/i/>`, i < n."""
+    rows = [jelly.RdfStreamRow(options=jelly.RdfStreamOptions(physical_type=1, max_name_table_size=8, max_prefix_table_size=8,
+                                                              max_datatype_table_size=8, version=2)),
+            jelly.RdfStreamRow(name=jelly.RdfNameEntry(id=0, value="")),
+            jelly.RdfStreamRow(triple=jelly.RdfTriple(s_bnode="a", p_bnode="b", o_bnode="c"))]
+    frames = [jelly.RdfStreamFrame(rows=rows)]
+    rows = []
+    for i in range(n):
+        # every declaration brings its own prefix entry into slot 1 and refers to (prefix 1, name 1 = "")
+        rows.append(jelly.RdfStreamRow(prefix=jelly.RdfPrefixEntry(id=1, value=f"http://e/{i}/")))
+        rows.append(jelly.RdfStreamRow(namespace=jelly.RdfNamespaceDeclaration(name="p", value=jelly.RdfIri(prefix_id=1, name_id=1))))
+        if len(rows) >= 200:
+            frames.append(jelly.RdfStreamFrame(rows=rows))
+            rows = []
+    if rows:
+        frames.append(jelly.RdfStreamFrame(rows=rows))
+    return refenc.frames_to_bytes(frames, True)
+
+
 def check_C17(ctx: Ctx) -> None:
     import os
     import subprocess
@@ -3460,6 +3543,13 @@ def check_C17(ctx: Ctx) -> None:
     for declared in (2**32, 2**36, 2**40, 2**62):
         for e in ("flat:seek", "flat:file", "grouped:file", "flat:raw:4096", "flat:raw:1", "rflat:file"):
             inputs.append(("hostile", e, _varint(declared) + body))
+    # LAST (a hang costs the worker one of its three strikes): thousands of namespace declarations that re-bind ONE prefix to
+    # pairwise different IRIs. The flat parsers only yield Prefix events (linear); the rdflib graph-building entry points hand
+    # every declaration to rdflib's Graph.bind(), which looks for a free name p1, p2, ... by linear search: quadratic
+    # (known finding C17-rdflib-rebind-quadratic: 135 kB take a quarter of a minute).
+    rebind = _c17_rebind_stream(4000)
+    inputs.append(("rebind-control", "rflat:seek", rebind))
+    inputs.append(("rebind", "rgraph:seek", rebind))
     # real code in a watchdogged subprocess with an address-space cap
     cap = 3 << 30
     payload = "".join(f"{e} {b.hex()}\n" for _, e, b in inputs)
@@ -3490,7 +3580,8 @@ def check_C17(ctx: Ctx) -> None:
         ctx.dist["outcome:" + (oc if oc.startswith("!") or oc in ("end", "HANG") else "end")] += 1
         raw = ":raw" in entry
         if out == "HANG" or ms > 5000:
-            ctx.fail(f"parser did not terminate promptly ({ms} ms)", dict(entry=entry, bytes=b.hex()))
+            ctx.fail(f"parser did not terminate promptly ({ms} ms)", dict(entry=entry, bytes=b.hex() if len(b) < 20000 else b.hex()[:2000] + "...", n_bytes=len(b)),
+                     known="C17-rdflib-rebind-quadratic" if kind == "rebind" and entry.startswith(("rgraph", "rgrouped")) else None)
         elif out.startswith("!!") or out.endswith("!MemoryError") or out.endswith("!RecursionError"):
             ctx.fail(f"parser ended with {out}", dict(entry=entry, bytes=b.hex()))
         elif rss - base_rss > _c17_allowance_kb(b):
@@ -3619,6 +3710,8 @@ def check_C02(ctx: Ctx) -> None:
     ctx.corr("SER-rdflib", reqs, resp)
     _c02_entry_points(ctx, r)
     _c02_datatype_wrap(ctx, r)
+    _tiny_prefix_tables(ctx, r, ctx.n(60, 600), integrations=("rdflib",))
+    _c02_shared_options_after_failure(ctx, r)
     # non-canonical lexical forms survive (repaired defect: normalize=False)
     from rdflib import XSD, Literal as RL, URIRef
     g = Graph()
@@ -3636,6 +3729,64 @@ def check_C02(ctx: Ctx) -> None:
     ctx.case("noncanonical-lexical", True)
     if sorted(_norm_text(t) for t in rimpl.store_quads(back)) != sorted(_norm_text(t) for t in rimpl.store_quads(g)):
         ctx.fail("non-canonical lexical forms are rewritten by the rdflib round trip", dict(got=rimpl.store_quads(back)))
+
+
+def _c02_shared_options_after_failure(ctx: Ctx, r) -> None:
+    """rdflib: ONE SerializerOptions object used for two exports; the first fails part-way (a term rdflib stores but Jelly
+    cannot carry, or a statement source that raises) and the caller catches the error; the second export of another graph
+    with the same options object must read back as exactly that graph."""
+    import rdflib
+
+    import rimpl
+    from pyjelly.integrations.rdflib import serialize as rser
+
+    class Boom(Exception):
+        pass
+
+    for i in range(ctx.n(30, 300)):
+        cls = r.choice("TQ")
+        o = Opts(fs=r.choice([2, 3, 7, 250]), lt={"T": 1, "Q": 2}[cls], gen=False, star=False, delim=r.random() < 0.8, pn=r.choice([8, 16]), pp=4, pd=4)
+        first = _rdf11_statements(r, cls, o, r.randint(3, 8))
+        second = _rdf11_statements(r, cls, o, r.randint(1, 6))
+        if not first or not second:
+            continue
+        so = o.real()
+        how = r.choice(["generator-raises", "bad-term"])
+        sink = io.BytesIO()
+        try:
+            if how == "generator-raises":
+                def src(first=first):
+                    for st in first:
+                        t = tuple(rimpl.to_rdflib(x) for x in st)
+                        yield t if cls == "T" else rser.Quad(*t)
+                    raise Boom
+                rser.flat_stream_to_file(src(), sink, options=so)
+            else:
+                store = _to_store(first, cls)
+                bad = (rdflib.URIRef("http://bad/s"), rdflib.URIRef("http://bad/p"), rdflib.Variable("v"))
+                if cls == "T":
+                    store.add(bad)
+                else:
+                    store.add((*bad, store.default_context))
+                store.serialize(destination=sink, format="jelly", options=so)
+        except Exception:  # noqa: BLE001  (the failure of the first export is the caller's business)
+            pass
+        store2 = _to_store(second, cls)
+        out = io.BytesIO()
+        try:
+            store2.serialize(destination=out, format="jelly", options=so)
+            back = rdflib.Graph() if cls == "T" else rdflib.Dataset()
+            back.parse(data=out.getvalue(), format="jelly")
+        except Exception as e:  # noqa: BLE001
+            ctx.fail(f"second rdflib export with the options object of a failed export raised {type(e).__name__}: {e}", dict(opts=o.describe(), how=how))
+            continue
+        ctx.case(("c02-shared-options", cls, o.token(), stmts_text(second)), True)
+        ctx.dist[f"shared_options_after_failed_export:{how}"] += 1
+        want = sorted(set(_norm_text(t) for t in rimpl.store_quads(store2)))
+        got = sorted(set(_norm_text(t) for t in rimpl.store_quads(back)))
+        if got != want:
+            ctx.fail("an rdflib export that re-uses the options object of a failed export does not read back as its own graph",
+                     dict(opts=o.describe(), how=how, got=got[:12], want=want[:12]))
 
 
 def _c02_datatype_wrap(ctx: Ctx, r) -> None:
@@ -3810,7 +3961,7 @@ def check_C14(ctx: Ctx) -> None:
             reqs.append(f"ser {cls} frames {o.token()} sink:{sink_arg(sink)}")
             resp.append(line)
             out[ns_on] = (line, b)
-        ctx.case((cls, o.token(), sink_arg(sink)), bool(bindings), sample=dict(cls=cls, preset=[pn, pp, pd], bindings=[(p, i._iri) for p, i in bindings]))
+        ctx.case((cls, o.token(), sink_arg(sink)), bool(bindings), sample=dict(cls=cls, preset=[pn, pp, pd], bindings=[(p, iri_s(i)) for p, i in bindings]))
         if not all(l.endswith(" end") for l, _ in out.values()):
             continue
         try:
@@ -3860,7 +4011,7 @@ def check_C14(ctx: Ctx) -> None:
             st = gen_fitting(r, cls, o, r.randint(1, 4))
             # start some graphs with an IRI in a declared namespace, so that prefix_id 0 right after the declarations matters
             if st and r.random() < 0.7:
-                ns_iri = shared[-1][1]._iri
+                ns_iri = iri_s(shared[-1][1])
                 first = list(st[0])
                 first[0] = IRI(ns_iri + "s%d" % j)
                 st[0] = type(st[0])(*first)
